@@ -110,17 +110,18 @@ type clNode struct {
 }
 
 type cluster struct {
-	bin     string
-	dir     string
-	snap    int
-	nodes   []*clNode
-	peers   []string
-	links   map[[2]int]*clLink // directed forwarders (from id, to id); nil = the nodes dial each other directly
-	pidFile *os.File
-	pidMu   sync.Mutex
-	diedMu  sync.Mutex
-	died    []string
-	t0      time.Time
+	bin              string
+	dir              string
+	snap             int
+	nodes            []*clNode
+	peers            []string
+	links            map[[2]int]*clLink // directed forwarders (from id, to id); nil = the nodes dial each other directly
+	pidFile          *os.File
+	pidMu            sync.Mutex
+	diedMu           sync.Mutex
+	died             []string
+	t0               time.Time
+	explicitRaftAddr bool
 }
 
 var clAllPids sync.Map // pid -> true, for the signal handler
@@ -163,9 +164,18 @@ func (c *cluster) writeConfigs(n *clNode, join bool) error {
 		return err
 	}
 	cj, _ := json.Marshal(map[string]interface{}{
-		"IsCluster": true, "PeerAddrs": strings.Join(c.peersFor(n), ","), "RaftAddr": "", "NodeID": n.id, "KVPort": n.kvPort, "JoinCluster": join,
+		"IsCluster": true, "PeerAddrs": strings.Join(c.peersFor(n), ","), "RaftAddr": c.raftAddrOf(n), "NodeID": n.id, "KVPort": n.kvPort, "JoinCluster": join,
 	})
 	return os.WriteFile(filepath.Join(n.dir, "cluster.json"), cj, 0o644)
+}
+
+// raftAddrOf: half of the scenarios (odd seed) name the node's own raft URL explicitly in cluster.json, as cluster_test/cluster_config3.json does; it is
+// the URL the node would derive from PeerAddrs anyway (seeded change C20-cluster-json-raftaddr-skips-clamp: the explicit form skipped a later line of the loader)
+func (c *cluster) raftAddrOf(n *clNode) string {
+	if c.explicitRaftAddr && n.id >= 1 && n.id <= len(c.peers) {
+		return c.peers[n.id-1]
+	}
+	return ""
 }
 
 func (c *cluster) addNode(join bool) (*clNode, error) {
@@ -708,7 +718,7 @@ func runClusterScenario(bin, scratch string, seed int64, sc clScenario) (rep clR
 		return
 	}
 	pidFile, _ := os.OpenFile(filepath.Join(scratch, "pids.txt"), os.O_CREATE|os.O_WRONLY|os.O_APPEND, 0o644)
-	c := &cluster{bin: bin, dir: dir, snap: sc.SnapCount, pidFile: pidFile, t0: time.Now()}
+	c := &cluster{bin: bin, dir: dir, snap: sc.SnapCount, pidFile: pidFile, t0: time.Now(), explicitRaftAddr: seed%2 == 1}
 	defer func() {
 		c.killAll()
 		c.closeLinks()
@@ -773,6 +783,19 @@ func runClusterScenario(bin, scratch string, seed int64, sc clScenario) (rep clR
 		problem("start-failed", "the cluster does not serve requests after start: "+err.Error())
 		logTails()
 		return
+	}
+	// C20 in cluster mode: if a node accepts SELECT of another database at all, the selection must still be the connection's own and the databases isolated
+	if out, err := c.once(c.nodes[0], 3*time.Second, "SELECT", "1"); err == nil && strings.HasPrefix(out, "+") {
+		if rc, err := dialNode(c.nodes[0], 2*time.Second); err == nil {
+			o1, _, _ := rc.do([]string{"SELECT", "1"}, 3*time.Second)
+			o2, _, _ := rc.do([]string{"SET", "select-probe", "in-db-1"}, 3*time.Second)
+			got, _ := c.once(c.nodes[0], 3*time.Second, "GET", "select-probe") // a FRESH connection: database 0
+			rc.c.Close()
+			if strings.HasPrefix(o1, "+") && strings.HasPrefix(o2, "+") && got != "$-1\r\n" {
+				problem("bad-reply", fmt.Sprintf("cluster node 1 accepts SELECT 1 (+OK) and the selection is not the connection's own: a key written by the selecting connection in database 1 is read by a fresh connection "+
+					"(which never sent SELECT): GET select-probe = %q", got))
+			}
+		}
 	}
 	opTimeout := 3 * time.Second
 	if sc.OpTimeout > 0 {
